@@ -72,6 +72,15 @@ def run(ck):
         for b in (0, 1):
             add(f"selpt{i}_{b}", base + ["w " + hx(b), "bool $4", "pselpt $4 $0 $1 $2 $3", "snap"], ("selpt", tag, P, Q, b))
         ck.count(("pair", tag, P, Q), kind="point pair: " + tag)
+    # both operands the SAME witnesses (one allocated point used twice), and sequences of operations on one point
+    for i, P in enumerate([J.random_subgroup_point(rng), J.ID, J.GEN]):
+        base1 = [f"pt {e(P)}"]
+        add(f"al_add{i}", base1 + ["padd $0 $1 $0 $1", "snap"], ("alias", "add", P))
+        add(f"al_sub{i}", base1 + ["psub $0 $1 $0 $1", "snap"], ("alias", "sub", P))
+        for b in (0, 1):
+            add(f"al_sel{i}_{b}", base1 + ["w " + hx(b), "bool $2", "pselpt $2 $0 $1 $0 $1", "snap"], ("alias", "selpt", P))
+        add(f"al_seq{i}", base1 + ["padd $0 $1 $0 $1", "padd $0 $1 $0 $1", "pneg $0 $1", "pneg $0 $1", "snap"], ("alias", "seq", P))
+        ck.count(("alias", P), kind="aliased point operands / repeated calls")
     mpts = [("random", J.random_subgroup_point(rng)), ("identity", J.ID), ("generator", J.GEN)]
     for j, k in enumerate(scalars(rng, quick)):
         for tag, P in (mpts if (not quick or j < 3) else mpts[:1]):
@@ -135,6 +144,13 @@ def run(ck):
                 # another curve point as the claimed sum
                 o = J.add(want, J.GEN); w2 = list(snap.wits); w2[n0 + 1], w2[n0 + 2] = o
                 job(f"{name}_other", snap, w2, False, "add: another curve point claimed as the sum", name)
+        elif kind == "alias":
+            op, P = m[1], m[2]
+            got = (val(res[-2]), val(res[-1]))
+            want = {"add": J.add(P, P), "sub": J.ID, "selpt": P, "seq": J.neg(P)}[op]
+            if got != want:
+                ck.violation(f"point component with aliased operands / repeated calls ({op}) returned a wrong point", {"failing_input_found": True, "program": progs[name]}, key=f"value:alias:{op}")
+            job(name, snap, None, True, f"honest {op}, aliased operands", name)
         elif kind == "selid":
             P, b = m[2], m[3]
             got = (val(res[-2]), val(res[-1]))
